@@ -58,7 +58,7 @@ impl Kinematics for OPWKinematics {
     fn inverse(&self, pose: &Pose) -> Solutions {
         if self.parameters.dof == 5 {
             // For 5 DOF robot, we can only do 5 DOF approximate inverse.
-            self.inverse_intern_5_dof(pose, 0.0)
+            self.filter_constraints_compliant(self.inverse_intern_5_dof(pose, 0.0))
         } else {
             self.filter_constraints_compliant(self.inverse_intern(&pose))
         }
